@@ -44,7 +44,7 @@ ASSUMPTIONS = [
     "run_ode/j_from_ode are trusted here (decided by C10)",
     "numba, numpy, scipy are trusted",
 ]
-FAULT_KINDS = ["same_name_other_system", "cancel_in_model_phase", "model:raises", "x:nan_or_inf", "x:destabilising", "model:diverging",
+FAULT_KINDS = ["alloc_failure_in_get_differentials", "same_name_other_system", "cancel_in_model_phase", "model:raises", "x:nan_or_inf", "x:destabilising", "model:diverging",
                "model:nan_after", "illegal:set_model_unsupported",
                "illegal:get_differentials_unsupported", "short_circuit_1e200"]
 PROBES = ["short_circuit_after_recorded_case", "model_eval_between_raw_evals",
@@ -251,6 +251,9 @@ def _generate(rng: random.Random, batch: dict) -> dict:
         elif r < 0.82:
             ops.append({"op": "set_raw"})
         elif r < 0.90:
+            if rng.random() < 0.25:
+                ops.append({"op": "get_differentials",
+                            "alloc_fail": rng.choice([1, 2])})
             ops.append({"op": "get_differentials"})
         elif r < 0.95:
             ops.append({"op": "observe",
@@ -810,6 +813,41 @@ def _execute_one(doc: dict, sysname: str) -> dict:
                     break
                 core.bump(res["probes"], "illegal_op_raised")
             res["events"].append(["set_model", mid, raised])
+        elif kind == "get_differentials" and op.get("alloc_fail") \
+                and supports:
+            # a failing allocation inside the call (the n-th array that numpy
+            # is asked to build there): the call may fail, but what is
+            # recorded must stay what it was
+            import moptipyapps.dynamic_control.objective as objmod
+            real_np = objmod.np
+            state = {"n": 0, "fired": False}
+
+            class _FailingNp:
+                def __getattr__(self, name):
+                    return getattr(real_np, name)
+
+                def concatenate(self, *a, **kw):
+                    state["n"] += 1
+                    if state["n"] == int(op["alloc_fail"]):
+                        state["fired"] = True
+                        raise MemoryError("simulated: out of memory")
+                    return real_np.concatenate(*a, **kw)
+            objmod.np = _FailingNp()
+            try:
+                obj.get_differentials()
+                outcome = "returned"
+            except MemoryError:
+                outcome = "memory-error"
+            except ValueError:
+                outcome = "value-error"
+            finally:
+                objmod.np = real_np
+            if state["fired"]:
+                core.bump(res["faults"], "alloc_failure_in_get_differentials")
+            res["events"].append(["get_differentials", "alloc_fail",
+                                  outcome, state["fired"]])
+            # (whatever was compacted, the contents are the ledger's; the
+            # next get_differentials / ledger check decides)
         elif kind == "get_differentials":
             try:
                 got = obj.get_differentials()
